@@ -882,6 +882,10 @@ def _revrange_next(eng, m, args, fr, dty):
 
 
 # ---------------------------------------------------------------- decimal text <-> BigInt
+def _dec_key(items):
+    return tuple(b.e.get_id() for b in items)
+
+
 @model(r'^<BigInt as Num>::from_str_radix$|^BigInt::parse_bytes$')
 def _from_str_radix(eng, m, args, fr, dty):
     items = items_of(eng, args[0], fr)
@@ -892,6 +896,13 @@ def _from_str_radix(eng, m, args, fr, dty):
     err = Err(Opaque('ParseBigIntError'))
     if not items:
         return err
+    memo = getattr(eng, 'dec_memo', None)
+    if memo is not None:
+        hit = memo.get(_dec_key(items))
+        if hit is not None:
+            # text produced by BigInt::to_string on this very path: parse . to_string = id (num-bigint contract)
+            eng.models_used.add('assumption: BigInt::from_str_radix(BigInt::to_string(x)) == x')
+            return Ok(Big(hit))
     neg = eng.branch_bool(items[0].e == 45)
     plus = (not neg) and eng.branch_bool(items[0].e == 43)
     digs = items[1:] if (neg or plus) else items
@@ -904,9 +915,11 @@ def _from_str_radix(eng, m, args, fr, dty):
             return err
     if 10 ** len(digs) >= 1 << (W - 1):
         raise PathEnd('bound', 'decimal literal too long for BigInt model')
-    acc = z3.BitVecVal(0, W)
+    w = max(8, (10 ** len(digs)).bit_length() + 1)  # narrow arithmetic: the value is < 10^len
+    acc = z3.BitVecVal(0, w)
     for b in digs:
-        acc = acc * 10 + z3.ZeroExt(W - 8, b.e - 48)
+        acc = acc * 10 + z3.ZeroExt(w - 8, b.e - 48)
+    acc = z3.ZeroExt(W - w, acc)
     return Ok(Big(-acc if neg else acc))
 
 
@@ -926,10 +939,12 @@ def decimal_digits(eng, mag, maxd=None):
             cond = z3.And(cond, z3.ULT(mag, z3.BitVecVal(hi, W)))
         opts.append((d, cond))
     d = eng.choose(opts)
+    w = min(W, max(8, (10 ** d).bit_length() + 1))   # narrow arithmetic: mag < 10^d on this path
+    mg = z3.Extract(w - 1, 0, mag)
     out = []
     for k in range(d):
         p = 10 ** (d - 1 - k)
-        dig = z3.URem(z3.UDiv(mag, z3.BitVecVal(p, W)), z3.BitVecVal(10, W))
+        dig = z3.URem(z3.UDiv(mg, z3.BitVecVal(p, w)), z3.BitVecVal(10, w))
         out.append(Int(z3.Extract(7, 0, dig) + 48, 8, False))
     return out
 
@@ -940,7 +955,11 @@ def _big_to_string(eng, m, args, fr, dty):
     neg = eng.branch_bool(e < 0)
     mag = -e if neg else e
     digs = decimal_digits(eng, mag)
-    return Vec(([mkint(45, 'u8')] if neg else []) + digs)
+    out = ([mkint(45, 'u8')] if neg else []) + digs
+    if not hasattr(eng, 'dec_memo') or eng.dec_memo_path is not eng.pc:
+        eng.dec_memo, eng.dec_memo_path = {}, eng.pc
+    eng.dec_memo[_dec_key(out)] = e
+    return Vec(out)
 
 
 @model(r'^<Rc<.*> as PartialEq>::(eq|ne)$')
